@@ -96,6 +96,14 @@ def observe_open(machine, blocks, params, res, failures, label, min_height, allo
     return machine.log[start:], height, pre
 
 
+def undo_window(w, limit):
+    '''Heights of the most recent `limit` blocks for which undo information is stored (part of
+    "the same final state": without it a later reorganisation cannot be followed).'''
+    tip = w.db.state.height
+    hs = [int.from_bytes(k[-4:], 'big') for k, _v in w.db.utxo_db.iterator(prefix=b'U')]
+    return sorted(h for h in hs if tip - limit < h <= tip)
+
+
 def resume_and_compare(machine, blocks, params, flush_schedule, obs_final, ref_final, res, failures,
                        label):
     w = world.World(machine, **params['world'])
@@ -119,6 +127,7 @@ def resume_and_compare(machine, blocks, params, flush_schedule, obs_final, ref_f
         except (world.ReaderBlocked, observe.ReadFailed):
             failures.append((f'{label}:resume-reader-retries-forever', {}))
             return
+        obs['undo_window'] = undo_window(w, params['world']['reorg_limit'])
         if obs != obs_final:
             diff = [k for k in obs if obs[k] != obs_final.get(k)]
             failures.append((f'{label}:resumed-run-differs-from-uninterrupted', dict(fields=diff)))
